@@ -5,6 +5,9 @@ Tie: scenarios (track in A, send, clone B / drop cache, bring with fault pattern
 rebuilt xvc binary against a local and a generic (shell command) storage and compared with the model driver.
 Oracle (model independent): bytes in the clone after bring, storage layout <guid>/<cache path>, idempotence of send and
 bring (tree snapshots), every cache object re-hashed after every fault pattern.
+Fault family "cross-device bring under a write fault" (class XdevFault): TMPDIR on another device, the final move of a
+downloaded object into the cache hits a file size limit or a kill; no partial object at a cache address, a second bring
+delivers byte-identical files (model: fetchF / Mv in Storage.lean, driver outcome `mf`).
 """
 import os, re, shutil, subprocess, hashlib, json, itertools
 from concurrent.futures import ThreadPoolExecutor
@@ -377,14 +380,368 @@ def failing_bring(chk, xvc, name, limit_blocks, sigmode):
     return fails
 
 
+# ------------------------------------------------------------------------------------------------------------------
+# fault family "cross-device bring under a write fault"
+#
+# The last step of `xvc file bring` moves every downloaded object from the temporary directory into the cache.  With the
+# temporary directory (TMPDIR) on ANOTHER file system than the repository the move is a copy, and a copy can fail half
+# way: disk full / quota / file size limit (here: RLIMIT_FSIZE, write(2) fails with EFBIG or the process dies of
+# SIGXFSZ), or the process is killed.  The property: whatever happens, no file at a cache address holds anything but the
+# complete object, and bringing again without the fault delivers every file byte-identically with exit status 0.
+
+XDEV_CANDIDATES = ('/dev/shm', '/run/user/%d' % os.getuid(), '/run', '/var/tmp', os.path.expanduser('~'))
+ADDR_RE = re.compile(r'^(b3|b2|s2|s3)/[0-9a-f]{3}/[0-9a-f]{3}/[0-9a-f]{58}/0(\.[^/]*)?$')
+WRITE_CALLS = 'write,pwrite64,writev,pwritev,pwritev2,sendfile,copy_file_range'
+# generic storage = a plain directory.  The download command lifts the SOFT file size limit for itself, so the download
+# into the temporary directory always succeeds: only xvc's own move from there into the cache is subject to the limit.
+XDEV_DOWNLOAD = 'ulimit -S -f unlimited ; mkdir -p {ABSOLUTE_CACHE_DIR} ; cp {FULL_STORAGE_PATH} {ABSOLUTE_CACHE_PATH}'
+
+
+def other_device_dir(ref):
+    """a fresh directory on another device than `ref` (for TMPDIR), or None when this machine has none"""
+    import tempfile
+    try:
+        dev = os.stat(ref).st_dev
+    except OSError:
+        return None
+    for cand in XDEV_CANDIDATES:
+        try:
+            if os.path.isdir(cand) and os.access(cand, os.W_OK) and os.stat(cand).st_dev != dev:
+                return tempfile.mkdtemp(dir=cand, prefix='xvcv-c06-')
+        except OSError:
+            pass
+    return None
+
+
+def strace_usable():
+    """strace present and allowed to inject (ptrace may be forbidden in a sandbox)"""
+    if not shutil.which('strace'):
+        return False
+    try:
+        p = subprocess.run(['strace', '-f', '-qq', '-o', '/dev/null', '-e', 'trace=write', '-e', 'inject=write:signal=KILL:when=1',
+                            'sh', '-c', 'echo x'], stdout=subprocess.DEVNULL, stderr=subprocess.DEVNULL, timeout=30)
+        return p.returncode in (-9, 137)
+    except Exception:
+        return False
+
+
+class XdevFault:
+    """one scenario of the family; same interface towards run() as Scenario (lines / obs / fail / kind / cfg)"""
+    stream = 'xdev-write-fault'
+
+    def __init__(self, chk, xvc, name, rng, kind, fault, tmp, limit, strace_ok, fixed=None):
+        self.chk, self.xvc, self.name, self.rng, self.kind = chk, xvc, name, rng, kind
+        self.fault, self.tmp, self.limit, self.strace_ok = fault, tmp, limit, strace_ok
+        self.fixed = fixed          # minimisation: {'sizes': [...], 'cfg': {...}} instead of drawn sizes / configuration
+        self.base = os.path.join(chk.scratch, 'c06', name)
+        self.lines, self.obs, self.fail = [], [], []
+        self.table = Table()
+        self.hexof = {}
+        self.skipped = None
+
+    def model(self, line, real):
+        self.lines.append(line); self.obs.append(real)
+
+    # ---- independent hashing (each distinct byte string once per algorithm)
+    def hexd(self, algo, b):
+        k = (algo, b)
+        if k not in self.hexof:
+            self.hexof[k] = hashref.digest(algo, b)
+        return self.hexof[k]
+
+    def know(self, b):
+        """what Table.add does, for the configured algorithm only (pure python BLAKE3 is slow on large objects)"""
+        a = rh.ALGOS[self.cfg['algo']]
+        for v in (b, hashref.strip_crlf(b)):
+            self.table.t[(self.cfg['algo'], self.hexd(a, v))] = fp(v)
+
+    def contents(self, n_files):
+        """object sizes around the limit: below / exactly at / just above / far above; at least the shapes 'only some
+        exceed it' and 'none exceeds it' (control) occur"""
+        rng, L = self.rng, self.limit * 1024
+        shape = rng.choice(['some', 'some', 'some', 'some', 'some', 'all', 'all', 'none'])
+        below = [0, 1, L // 2, L - 4096, L - 1, L]
+        above = [L + 1, L + 4096, L + L // 2, 2 * L + 17]
+        if self.fixed: shape, sizes = 'fixed', list(self.fixed['sizes'])
+        elif shape == 'none': sizes = [rng.choice(below) for _ in range(n_files)]
+        elif shape == 'all': sizes = [rng.choice(above) for _ in range(n_files)]
+        else:
+            sizes = [rng.choice(above), rng.choice(below)] + [rng.choice(below + above) for _ in range(n_files - 2)]
+            rng.shuffle(sizes)
+        out = []
+        for i, n in enumerate(sizes):
+            n = max(0, n)
+            if rng.random() < 0.3 and n >= 8:
+                # text with mixed line ends (in auto/text mode the address is the hash of the bytes WITHOUT CR/LF, the
+                # object holds the bytes as they are)
+                line = b'%d: the quick brown fox\r\n' % i if rng.random() < 0.5 else b'%d: lorem ipsum\n' % i
+                b = (line * (n // len(line) + 1))[:n - 3] + bytes(f'{i:03d}', 'ascii')
+            else:
+                b = rng.randbytes(n) if n else b''
+                if n > 4: b = bytes(f'{i:04d}', 'ascii') + b[4:]
+            out.append(b)
+        return shape, out
+
+    def audit_cache(self, sb, when, sent_objs):
+        """MODEL INDEPENDENT: every file at a cache address holds bytes that hash to that address"""
+        hidden = 0
+        for rel, o in sb.cache_objects().items():
+            if not ADDR_RE.match(rel):
+                hidden += 1            # e.g. a hidden temporary name next to the address: not a cache address
+                continue
+            pfx, hexd, ext = addr_parts(rel)
+            algo = {v: k for k, v in hashref.PREFIX.items()}.get(pfx)
+            if o['kind'] != 'file' or o['bytes'] is None:
+                self.fail.append((f"{when}: cache address {rel} is a {o['kind']}, not a readable regular file",
+                                  {'kind': 'object-not-regular-after-failed-final-move', 'fault': self.fault, 'storage': self.kind}))
+                continue
+            b = o['bytes']
+            if hexd in (self.hexd(algo, b), self.hexd(algo, hashref.strip_crlf(b))):
+                continue
+            full = sent_objs.get(rel)
+            what = 'bytes that do not hash to the address'
+            if full is not None and len(b) < len(full) and full.startswith(b):
+                what = f'only the first {len(b)} of the {len(full)} bytes of the object (a partial copy)'
+            elif full is not None:
+                what = f'{len(b)} wrong bytes (the object has {len(full)})'
+            self.fail.append((f"{when}: cache address {rel} holds {what}",
+                              {'kind': 'partial-object-after-failed-final-move', 'fault': self.fault, 'storage': self.kind, 'tmp': self.tmp}))
+        if hidden:
+            self.chk.count('xdev:files-under-other-names-in-cache-dirs:' + ('after-bring-2' if when.startswith('after bring #2') else 'after-bring-1'), hidden)
+
+    def find_kill_point(self, ref, cargs, want, env):
+        """reference run in a twin clone under strace: the first write-like call whose target is a file below
+        .xvc/<algorithm>/.  Returns (syscall, path relative to the repository root) or None."""
+        tf = os.path.join(self.base, 'ref.trace')
+        ref.run(['strace', '-f', '-qq', '-y', '-s', '0', '-e', 'signal=none', '-o', tf, '-e', f'trace={WRITE_CALLS}',
+                 self.xvc] + cargs + ['file', 'bring', '--from', 'st'] + want, env=env, timeout=120)
+        pat = re.compile(r'^\d+\s+(\w+)\((.*)$')
+        pre = ref.root + '/.xvc/'
+        try:
+            for l in open(tf, errors='replace'):
+                m = pat.match(l)
+                if not m: continue
+                sc, args = m.group(1), m.group(2)
+                fds = re.findall(r'(\d+)<([^>]*)>', args)
+                if not fds: continue
+                # the fd written to: first argument, except copy_file_range (fd_in, off_in, fd_out, ...)
+                out_fd = fds[1] if sc == 'copy_file_range' and len(fds) > 1 else fds[0]
+                p = out_fd[1]
+                if p.startswith(pre) and p[len(pre):].split('/')[0] in ('b3', 'b2', 's2', 's3'):
+                    return sc, os.path.relpath(p, ref.root)
+        except OSError:
+            pass
+        return None
+
+    def run(self):
+        try:
+            return self._run()
+        finally:
+            for d in getattr(self, 'cleanup_dirs', []):
+                shutil.rmtree(d, ignore_errors=True)
+            shutil.rmtree(self.base, ignore_errors=True)
+
+    def _run(self):
+        rng, chk = self.rng, self.chk
+        os.makedirs(self.base, exist_ok=True)
+        self.cleanup_dirs = []
+        cfg = {'algo': rng.choice([0, 1, 2, 2, 3, 3]), 'method': rng.choice(['copy', 'hardlink', 'symlink']), 'tob': rng.choice(['auto', 'auto', 'binary'])}
+        if self.limit >= 256 and cfg['algo'] == 0: cfg['algo'] = 2          # the reference BLAKE3 is pure python: too slow for large objects
+        if self.fixed: cfg = dict(self.fixed['cfg'])
+        self.cfg = cfg
+        cargs = rh.Runner.cfg_args(None, cfg)
+        if self.tmp == 'other':
+            tmpd = other_device_dir(self.base)
+            if tmpd is None:
+                self.skipped = 'no-other-device'
+                return self
+            self.cleanup_dirs.append(tmpd)
+        else:
+            tmpd = os.path.join(self.base, 'tmp'); os.makedirs(tmpd, exist_ok=True)
+        env = {'TMPDIR': tmpd}
+        A = Sandbox(self.base, 'A', self.xvc); A.init()
+        self.lines.append('\t'.join(['cfg', str(cfg['algo']), cfg['method'], cfg['tob']])); self.obs.append(None)
+        paths = rng.sample([p for p in rh.PATHS if p != '.hidden'], rng.randint(2, 4))
+        if self.fixed: paths = ['g.bin', 'a.txt', 'd/h.bin', 'noext'][:len(self.fixed['sizes'])]
+        shape, bodies = self.contents(len(paths))
+        files = dict(zip(paths, bodies))
+        if len(paths) >= 3 and rng.random() < 0.25 and not self.fixed:
+            files[paths[2]] = files[paths[0]]          # two paths, one content (one object, or two names in one digest directory)
+        for p in paths:
+            A.write(p, files[p]); self.know(files[p])
+            self.model('\t'.join(['write', p, files[p].hex()]), None)
+        stamps = {'k': 0, 'mine': set()}
+        rh.Runner.restamp(A, stamps)
+        A.x(*(cargs + ['file', 'track', '--no-parallel'] + paths))
+        rh.Runner.restamp(A, stamps)
+        oa = Obs(A)
+        self.model('\t'.join(['track', '-', '-', '0', '0'] + paths), 'rc=ok ' + abstraction(oa, self.table))
+        sdir = os.path.join(self.base, 'storage')
+        if self.kind == 'local':
+            r0, _, e0 = A.x('storage', 'new', 'local', '--name', 'st', '--path', sdir)
+        else:
+            r0, _, e0 = A.x('storage', 'new', 'generic', '--name', 'st', '--url', sdir + '/', '--storage-dir', '',
+                            '--init', 'mkdir -p {URL}{STORAGE_DIR} ; cp {LOCAL_GUID_FILE_PATH} {URL}{STORAGE_GUID_FILE_PATH}',
+                            '--list', 'ls -1 {URL}{STORAGE_DIR}',
+                            '--upload', 'mkdir -p {FULL_STORAGE_DIR} ; cp {ABSOLUTE_CACHE_PATH} {FULL_STORAGE_PATH}',
+                            '--download', XDEV_DOWNLOAD, '--delete', 'rm -f {FULL_STORAGE_PATH}')
+        if r0 != 0:
+            self.fail.append((f'storage new failed rc={r0} {e0[-300:]}', {'kind': 'storage-new-failed'})); return self
+        gA = guid_of(A)
+        A.x(*(cargs + ['file', 'send', '--to', 'st'] + paths))
+        addr = {p: rc.rec_addr(oa.recs[p], p) for p in paths if p in oa.recs and oa.recs[p]['cur']}
+        sent_objs = {a: files[p] for p, a in addr.items()}
+        tree = storage_tree(sdir)
+        if len(addr) != len(paths) or any(tree.get(gA + '/' + a) != files[p] for p, a in addr.items()):
+            self.fail.append(('precondition: the files did not reach the storage byte-identically', {'kind': 'send-missing-or-different'})); return self
+        self.model('\t'.join(['send', '1'] + [f'{p}=ok' for p in paths]), None)
+        # ---------------------------------------------------------------- the receiving side
+        same_repo = self.fault != 'kill' and rng.random() < 0.4 and not self.fixed
+        ref = None
+        if same_repo:
+            B = A
+            for dp, dn, fn in os.walk(A.path('.xvc')):
+                try: os.chmod(dp, 0o755)
+                except OSError: pass
+            for a in ('b3', 'b2', 's2', 's3'):
+                shutil.rmtree(A.path('.xvc/' + a), ignore_errors=True)
+            for p in paths:
+                if os.path.lexists(A.path(p)): os.unlink(A.path(p))
+            self.lines += ['dropcache'] + ['\t'.join(['delete', p]) for p in paths]
+            self.obs += [None] * (1 + len(paths))
+        else:
+            A.git('add', '-A'); A.git('commit', '-q', '-m', 'all', '--allow-empty')
+            def clone(tag):
+                S = Sandbox(self.base, tag, self.xvc)
+                shutil.rmtree(S.root)
+                S.run(['git', 'clone', '-q', A.root, S.root], cwd=self.base)
+                return S
+            B = clone('B')
+            if self.fault == 'kill': ref = clone('Bref')
+            self.lines += ['clone\tB', 'use\tB', '\t'.join(['cfg', str(cfg['algo']), cfg['method'], cfg['tob']])]
+            self.obs += [None, None, None]
+        want = rng.sample(paths, rng.randint(max(1, len(paths) - 1), len(paths))) if not self.fixed else list(paths)
+        big = [p for p in paths if len(files[p]) > self.limit * 1024]
+        if big and not any(p in big for p in want): want.append(big[0])
+        # xvc moves the downloaded objects in the order of their cache path strings, one object per address
+        order = sorted({addr[p] for p in want})
+        L = self.limit * 1024
+        over = [a for a in order if len(sent_objs[a]) > L]
+        bring = cargs + ['file', 'bring', '--from', 'st'] + want
+        import shlex
+        sh_bring = 'exec ' + ' '.join(shlex.quote(a) for a in [self.xvc] + bring)
+        fail_at = None            # address whose final move fails (exact only for generic storage + TMPDIR on another device)
+        if self.fault == 'efbig':
+            r1, o1, e1 = B.run(['bash', '-c', f"trap '' XFSZ; ulimit -c 0; ulimit -S -f {self.limit}; {sh_bring}"], env=env)
+            fail_at = over[0] if over else None
+        elif self.fault == 'xfsz':
+            # the same limit with the default action of SIGXFSZ: the process dies in the middle of the copy
+            r1, o1, e1 = B.run(['bash', '-c', f"ulimit -c 0; ulimit -S -f {self.limit}; {sh_bring}"], env=env)
+            fail_at = over[0] if over else None
+        else:
+            kp = self.find_kill_point(ref, cargs, want, env) if (ref and self.strace_ok) else None
+            if ref: ref.cleanup()
+            if kp is None:
+                chk.count('xdev:kill:no-write-below-cache-dir' if self.strace_ok else 'xdev:kill:strace-unavailable')
+                r1, o1, e1 = B.x(*bring, env=env)
+            else:
+                sc, relp = kp
+                chk.count(f'xdev:kill:at-{sc}')
+                tf = os.path.join(self.base, 'kill.trace')
+                r1, o1, e1 = B.run(['strace', '-f', '-qq', '-e', 'signal=none', '-o', tf, '-e', f'trace={sc}', '-P', os.path.join(B.root, relp),
+                                    '-e', f'inject={sc}:signal=KILL:when=1', self.xvc] + bring, env=env, timeout=120)
+                if r1 not in (-9, 137):
+                    chk.count('xdev:kill:not-delivered')
+                else:
+                    d = os.path.relpath(os.path.dirname(relp), '.xvc')
+                    cands = [a for a in order if os.path.dirname(a) == d]
+                    cands = [a for a in cands if os.path.basename(a) in os.path.basename(relp)] or cands
+                    fail_at = cands[0] if cands else None
+                    self.killed_at = relp
+        chk.count(f'xdev:bring1:{self.fault}:{self.kind}:tmp-{self.tmp}:rc={r1}')
+        chk.count(f'xdev:sizes:{shape}-exceed'); chk.count(f'xdev:receiver:{"same-repo" if same_repo else "clone"}')
+        when1 = f'after bring #1 ({self.kind} storage, TMPDIR on {"ANOTHER" if self.tmp == "other" else "the same"} device, fault {self.fault}' + \
+                (f' at {self.limit} KiB' if self.fault != 'kill' else f' at the first write to {getattr(self, "killed_at", "-")}') + f', exit {r1})'
+        self.audit_cache(B, when1, sent_objs)
+        ob1 = Obs(B)
+        ob1.cache = {k: v for k, v in ob1.cache.items() if ADDR_RE.match(k)}
+        for p in want:
+            got = rc.read_through(ob1, p)
+            k = ob1.ws.get(p)
+            if k and k['kind'] == 'file' and got != files[p]:
+                self.fail.append((f'{when1}: {p} holds {len(got or b"")} bytes that are not the {len(files[p])} bytes that were sent',
+                                  {'kind': 'partial-file-after-failed-final-move', 'fault': self.fault, 'storage': self.kind}))
+        exact = self.kind == 'generic' and self.tmp == 'other'
+        if exact:
+            # model: objects before the failing one (cache path order) arrive, the command stops there, nothing is rechecked
+            outc = {a: ('mf' if a == fail_at else 'ok') for a in order}
+            byaddr = {}
+            for p in want: byaddr.setdefault(addr[p], []).append(p)
+            seq = [p for a in order for p in byaddr[a]]
+            # The recheck that follows a fetch without a failing move runs under the limit as well; it is not part of this
+            # model.  A copy of a file of EXACTLY the limit on one file system fails (fs::copy ends with a copy_file_range
+            # call at offset = limit, which the kernel refuses with EFBIG although nothing is left to write), the cross
+            # device copy of the final move (sendfile with a known length) does not.  There only the fetch is compared.
+            fetch_only = fail_at is None and self.fault != 'kill' and cfg['method'] == 'copy' and any(len(files[p]) >= L for p in want)
+            if fetch_only: chk.count('xdev:recheck-under-the-limit-not-compared')
+            self.model('\t'.join(['bring', 'other', '1', '-'] + [f'{p}={outc[addr[p]]}' for p in seq]),
+                       ('after-fault-fetch ' if fetch_only else 'after-fault ') + 'rc=' + ('ok' if r1 in (0, 1) else 'panic') + ' ' + abstraction(ob1, self.table))
+            chk.count(f'xdev:model-outcome:{"final-move-fails" if fail_at else "all-ok"}')
+        # ---------------------------------------------------------------- bring #2: no fault
+        r2, o2, e2 = B.x(*bring, env=env)
+        rh.Runner.restamp(B, stamps)
+        when2 = f'bring #2 (no fault) {when1}'
+        if r2 != 0:
+            self.fail.append((f'{when2}: exit {r2}: {e2[-300:]}', {'kind': 'second-bring-fails', 'fault': self.fault, 'storage': self.kind, 'tmp': self.tmp}))
+        self.audit_cache(B, 'after ' + when2, sent_objs)
+        ob2 = Obs(B)
+        ob2.cache = {k: v for k, v in ob2.cache.items() if ADDR_RE.match(k)}
+        for p in want:
+            got = rc.read_through(ob2, p)
+            if got != files[p]:
+                self.fail.append((f'after {when2}: {p} is ' + ('missing' if got is None else f'{len(got)} bytes, not byte-identical to the {len(files[p])} bytes that were sent'),
+                                  {'kind': 'second-bring-does-not-deliver', 'fault': self.fault, 'storage': self.kind, 'tmp': self.tmp}))
+        if exact or r2 == 0:
+            self.model('\t'.join(['bring', 'other' if self.tmp == 'other' else 'same', '1', '-'] + [f'{p}=ok' for p in want]),
+                       f"rc={'ok' if r2 in (0, 1) else 'panic'} " + abstraction(ob2, self.table))
+        self.minimal = {'storage': self.kind, 'tmpdir': self.tmp, 'fault': self.fault, 'limit_kib': self.limit, 'cfg': cfg,
+                        'files': {p: len(files[p]) for p in paths}, 'brought': want, 'receiver': 'same-repo' if same_repo else 'clone',
+                        'exit_bring1': r1, 'exit_bring2': r2, 'final_move_fails_at': fail_at if exact else None}
+        if B is not A: B.cleanup()
+        A.cleanup()
+        return self
+
+
+def xdev_plan(chk, xvc, quick):
+    """the scenario list of the family (seeded); None when this machine has no second writable device"""
+    import random
+    probe = other_device_dir(chk.scratch)
+    if probe is None:
+        return None, False
+    shutil.rmtree(probe, ignore_errors=True)
+    strace_ok = strace_usable()
+    out = []
+    n = 30 if quick else 160
+    for i in range(n):
+        rng = random.Random(chk.seed * 104729 + 31 * i + 5)
+        kind = 'generic' if i % 4 != 3 else 'local'
+        fault = ['efbig', 'efbig', 'xfsz', 'kill', 'efbig'][i % 5]
+        tmp = 'same' if i % 10 == 9 else 'other'          # a few controls: same device, the fault must be harmless as well
+        limit = rng.choice([8, 16, 64] if quick else [8, 16, 64, 64, 256])
+        out.append(XdevFault(chk, xvc, f'x{i}', rng, kind, fault, tmp, limit, strace_ok))
+    return out, strace_ok
+
+
 def run(chk):
     quick = chk.tier == 'quick'
     model = chk.lean('XvcRepo', 'XvcRepo.Props.C06', exe='repomodel', extra_modules=['XvcRepo.Model', 'XvcRepo.Storage'])
     xvc = chk.build_xvc()
-    chk.trusted_base += ['binary harness lib/c06.py (scratch repositories, local storage and a generic storage whose upload/download commands consult a fault-pattern file, git clone, TMPDIR on /dev/shm = tmpfs on another device)',
+    chk.trusted_base += ['fault injection of the xdev-write-fault family: bash `ulimit -S -f`, `trap \'\' XFSZ`, strace -f -P <path> -e inject=<call>:signal=KILL:when=1; os.stat().st_dev to find another device',
+                         'binary harness lib/c06.py (scratch repositories, local storage and a generic storage whose upload/download commands consult a fault-pattern file, git clone, TMPDIR on /dev/shm = tmpfs on another device)',
                          'modelled, not verified: cloud back ends (s3, gcs, r2, minio, wasabi, digital-ocean) and rsync: they share send/bring/fetch and the XvcStorageOperations contract with the two storages exercised here but were not run (no network)']
     chk.assumptions += ['the upload/download commands of a generic storage either succeed with the right bytes or exit non-zero (the fault model: fail, fail leaving a partial temp file); a command that exits 0 after writing wrong bytes is outside the property',
-                        'interruption of xvc itself during a transfer is covered by C07']
+                        'interruption of xvc itself during a transfer is covered by C07; here only: a kill at the first write below .xvc/<algorithm>/ of a bring, and death by SIGXFSZ in the middle of the final copy',
+                        'a file size limit (RLIMIT_FSIZE) stands for every write fault of the final move (ENOSPC, EDQUOT, EFBIG behave alike for the caller: the copy stops after a prefix)']
     n = 48 if quick else 600
     scen = []
     for i in range(n):
@@ -400,9 +757,10 @@ def run(chk):
             return s
     with ThreadPoolExecutor(max_workers=8) as ex:
         done = list(ex.map(one, scen))
-    st = chk.tie['streams'].setdefault('send-bring-scenarios', {'scenarios': 0, 'model_lines': 0, 'compared': 0, 'disagreements': 0})
     have_model = os.path.exists(model)
-    for s in done:
+
+    def judge(s, stream):
+        st = chk.tie['streams'].setdefault(stream, {'scenarios': 0, 'model_lines': 0, 'compared': 0, 'disagreements': 0})
         chk.evaluations += 1
         st['scenarios'] += 1
         chk.count('storage:' + s.kind)
@@ -417,21 +775,55 @@ def run(chk):
                 if real.startswith('st='):
                     ok = real == mo
                     d = None if ok else f'storage: implementation {real} model {mo}'
+                elif real.startswith('after-fault'):
+                    # a bring whose final move failed: exit class AND the state it left behind (which objects arrived)
+                    a, m = split_abs(real.split(' ', 1)[1]), split_abs(mo)
+                    keys = ('cache', 'rec') if real.startswith('after-fault-fetch ') else ('rc', 'cache', 'ws', 'rec')
+                    d = next((f'{k} after the failed bring: implementation {a[k]} model {m[k]}' for k in keys if a[k] != m[k]), None)
                 else:
                     d = rh.compare_step({'abs': real.split(' ', 1)[1], 'rc': 0 if real.startswith('rc=ok') else 101}, mo)
                 if d:
                     st['disagreements'] += 1
                     if len(chk.tie['disagreements']) < 3:
-                        chk.disagreement('send-bring-scenarios', {'kind': s.kind, 'lines': [l[:200] for l in s.lines]}, real[:1500], mo[:1500], f'at `{line[:120]}`: {d[:600]}')
+                        chk.disagreement(stream, {'kind': s.kind, 'scenario': getattr(s, 'minimal', None), 'lines': [l[:200] for l in s.lines]}, real[:1500], mo[:1500], f'at `{line[:120]}`: {d[:600]}')
                     break
         seen = set()
         for msg, sig in s.fail:
             k = json.dumps(sig, sort_keys=True)
             if k in seen: continue
             seen.add(k)
-            chk.oracle_failure(msg, {'storage': s.kind, 'cfg': getattr(s, 'cfg', None), 'model_lines': [l[:300] for l in s.lines]}, None, signature=sig)
-        if len(chk.samples) < 4:
-            chk.samples.append({'storage': s.kind, 'protocol': [l[:160] for l in s.lines]})
+            case = {'storage': s.kind, 'cfg': getattr(s, 'cfg', None), 'model_lines': [l[:300] for l in s.lines]}
+            if getattr(s, 'minimal', None): case = dict(s.minimal, scenario=stream, model_lines=case['model_lines'])
+            chk.oracle_failure(msg, case, None, signature=sig)
+        if len([x for x in chk.samples if x.get('stream') == stream]) < 4:
+            chk.samples.append({'stream': stream, 'storage': s.kind, 'protocol': [l[:160] for l in s.lines]})
+
+    for s in done:
+        judge(s, 'send-bring-scenarios')
+    # ---------------------------------------------------------------- cross-device bring under a write fault
+    xs, strace_ok = xdev_plan(chk, xvc, quick)
+    fam = {'other_device_available': xs is not None, 'strace_injection_available': strace_ok, 'scenarios': 0, 'skipped_no_other_device': 0,
+           'minimised_reruns': 0}
+    if xs is None:
+        chk.count('xdev:skipped:no-writable-directory-on-another-device')
+        fam['skipped_no_other_device'] = 1
+    else:
+        with ThreadPoolExecutor(max_workers=8) as ex:
+            xdone = list(ex.map(one, xs))
+        failing = [s for s in xdone if any(sig.get('kind') != 'harness-error' for _, sig in s.fail)]
+        for s in failing[:2]:
+            # minimise: the same storage / fault / limit / TMPDIR placement with ONE file just above the limit
+            fam['minimised_reruns'] += 1
+            m = one(XdevFault(chk, xvc, s.name + 'min', __import__('random').Random(1), s.kind, s.fault, s.tmp, s.limit, strace_ok,
+                              fixed={'sizes': [s.limit * 1024 + 1], 'cfg': s.cfg}))
+            if any(sig.get('kind') != 'harness-error' for _, sig in m.fail):
+                xdone[xdone.index(s)] = m
+        for s in xdone:
+            if s.skipped:
+                fam['skipped_no_other_device'] += 1; chk.count('xdev:skipped:' + s.skipped); continue
+            fam['scenarios'] += 1
+            judge(s, 'xdev-write-fault')
+    chk.extra['xdev_write_fault_family'] = fam
     for j, blocks in enumerate([1024, 300] if quick else [1024, 300, 2048, 64, 1]):
         chk.evaluations += 1
         chk.nontrivial.add(f'interrupted-send-{blocks}')
@@ -455,7 +847,15 @@ def run(chk):
     chk.extra['rule'] = (f'{n} scenarios, alternating local / generic storage: 2-4 files from the content classes (duplicates allowed) tracked in A with a random algorithm and method; '
                          'a random subset sent (generic: random upload failures), sent again; with p=.5 a second repository with another guid sends the same content to the same storage; '
                          'then either a git clone B of A or A itself with cache and workspace removed brings a random subset (generic: each download ok / fails cleanly / fails leaving a partial temp file), '
-                         'TMPDIR default or /dev/shm (another file system), random --recheck-as; brought again; plus interrupted local sends (killed by SIGXFSZ at several sizes) followed by bring in a clone, before and after repeating the send; plus brings from a local storage cut short on the receiving side by a file size limit (write fails with EFBIG, or the process is killed), then repeated without the limit. Every scenario is distinct (seeded) and non-trivial (>= 1 object transferred or refused).')
+                         'TMPDIR default or /dev/shm (another file system), random --recheck-as; brought again; plus interrupted local sends (killed by SIGXFSZ at several sizes) followed by bring in a clone, before and after repeating the send; plus brings from a local storage cut short on the receiving side by a file size limit (write fails with EFBIG, or the process is killed), then repeated without the limit. '
+                         'Fault family "cross-device bring under a write fault" (stream xdev-write-fault, ' + (f"{fam['scenarios']} scenarios" if fam['other_device_available'] else 'SKIPPED: no writable directory on another device') + '): '
+                         'TMPDIR on another device than the repository (first of /dev/shm, /run/user/<uid>, /run, /var/tmp, ~ whose st_dev differs; a few controls on the same device), '
+                         'generic storage whose download command lifts the soft file size limit for itself (so only xvc\'s own final move into the cache is subject to it) 3 of 4, local storage 1 of 4, '
+                         '2-4 objects with sizes around the limit (0, 1, limit/2, limit-4096, limit-1, limit | limit+1, limit+4096, 1.5 limit, 2 limit+17; shapes some / all / none exceed), random algorithm, method, text-or-binary, clone or same repository; '
+                         'bring #1 under a fault: `trap \'\' XFSZ; ulimit -S -f <limit>` (write fails with EFBIG), the same limit with SIGXFSZ left fatal (the process dies mid-copy), or - strace available - SIGKILL at the first write-like call (write/pwrite/writev/sendfile/copy_file_range) whose target is a file below .xvc/<algorithm>/ (found by a reference run in a twin clone, injected with strace -P <that file>); '
+                         'then bring #2 without fault. Oracles: after each bring every file at a cache ADDRESS re-hashed with lib/hashref.py (a shorter prefix of the object is named as such; files under other names in the cache directories are counted, not judged), requested workspace files byte-identical or absent after #1, bring #2 exits 0 and every requested file is byte-identical to what was sent. '
+                         'Tie: for generic storage + other device the driver gets `bring` with per-path outcome `mf` (download ok, final move fails) in cache-path order and must reproduce exit class, cache, workspace and records after the FAILED bring, and the full state after bring #2. A failing scenario is re-run minimised (one file of limit+1 bytes). '
+                         'Every scenario is distinct (seeded) and non-trivial (>= 1 object transferred or refused).')
     return chk.finish()
 
 
